@@ -239,6 +239,10 @@ def fault_candidates(b: Board, observer=None):
             # out of turn, a card the seat does hold
             for c in sorted(b.hands[s])[:1] + sorted(b.hands[s])[-1:]:
                 out.append((c, s, 'out-of-turn play of a held card'))
+    # out of turn and not even the seat's own card: e.g. declarer named for a card of dummy while dummy is on turn
+    if not over and b.hands[turn]:
+        for s in ((turn + 2) % 4, (turn + 1) % 4):
+            out.append((sorted(b.hands[turn])[0], s, 'out-of-turn play of a card held by the seat on turn'))
     # out of turn AND already played: the seat that played last offers the same card again (a retransmitted message),
     # and the seat that opened the play offers its opening lead again
     if played and not over:
